@@ -63,7 +63,7 @@ def run_case(ctx, d):
         warnings.simplefilter('ignore')
         if d['t'] == 'shape':
             r = ctx.rng('shape', d['i'], d['seed'])
-            shape = keyshape.random_shape(r)
+            shape = keyshape.random_shape(r, bare=True)
             k, info = keyshape.build(shape)
             _check_key(ctx, pgpy, k, info, shape, r)
         elif d['t'] == 'concat':
@@ -220,7 +220,7 @@ def _gpg(ctx, d, pgpy):
     r = ctx.rng('gpg', d['seed'])
     with gpgx.Home() as g:
         for i in range(d['n']):
-            shape = keyshape.random_shape(r)
+            shape = keyshape.random_shape(r, bare=True)
             shape['key_revoked'] = False
             k, info = keyshape.build(shape)
             ok, err = g.import_key(bytes(k))
